@@ -294,7 +294,68 @@ def clause_streams(cases, ctx: Ctx):
     return [(i, s.replace("C04/", "C12/stream/"), m) for (i, s, m) in clause_collect(cases, ctx)]
 
 
-CLAUSES = {"envmodes": clause_envmodes, "collect_diff": clause_collect_diff, "streams": clause_streams}
+_PATHS: dict = {}
+
+
+def clause_iteration_paths(cases, ctx: Ctx):
+    """The real `iteration` of an off-policy learner with N parallel environments vs the real `iteration` with ONE
+    environment, made comparable without knowing any key derivation: greedy (epsilon = 0) MLP Q-policy on a tabular MDP
+    with a single initial state, so a collection is a function of (networks, start state) only.  Before every iteration
+    the single-environment run is given the N-run's current networks (online AND target) and environment 0's start
+    state; afterwards the rows environment 0 stored in this iteration must equal the rows the single run stored.
+    case: {table, N, num_steps, n_iter, interval, lr, policy_key, key}"""
+    from lerax.algorithm import DQN
+
+    out = []
+    for ci, c in enumerate(cases):
+        N, Tn = c["N"], c["num_steps"]
+        env = collect.build_env(c)
+        pol = learnx.make_policy("q", env, c["policy_key"], epsilon=0.0)
+        sk = (N, Tn, c["interval"], c["lr"], c["S"], c["A"], bool(c.get("tl")))
+        if sk not in _PATHS:
+            cb = CallbackList(callbacks=[])
+            mk = lambda n: DQN(buffer_size=64 * n, learning_starts=2, num_envs=n, num_steps=Tn, batch_size=4, target_update_interval=c["interval"], learning_rate=c["lr"], gamma=0.9)
+            aN, a1 = mk(N), mk(1)
+            _PATHS[sk] = (
+                eqx.filter_jit(lambda e, p, k: aN.reset(e, p, key=k, callback=cb)), eqx.filter_jit(lambda st, k: aN.iteration(st, key=k, callback=cb)),
+                eqx.filter_jit(lambda e, p, k: a1.reset(e, p, key=k, callback=cb)), eqx.filter_jit(lambda st, k: a1.iteration(st, key=k, callback=cb)),
+            )
+        resetN, itN, reset1, it1 = _PATHS[sk]
+        stN = resetN(env, pol, jr.key(c["key"]))
+        st1 = reset1(env, pol, jr.key(c["key"] + 1))
+        desc = f"DQN N={N} num_steps={Tn} target_update_interval={c['interval']} lr={c['lr']} T={c['T']} term={c['term']} tl={c.get('tl')} policy key {c['policy_key']}"
+        S = c["S"]
+        all_obs = jnp.eye(S) if c["obs_kind"] == "onehot" else jnp.arange(S)
+        greedy = lambda p: tuple(int(jnp.argmax(p.q_values(None, o)[1])) for o in all_obs)
+        for n in range(c["n_iter"]):
+            # same networks, same start state for environment 0 and the single-environment run
+            env0 = jax.tree.map(lambda x: x[0], stN.step_state.env_state)
+            st1 = eqx.tree_at(lambda s: (s.policy, s.target_policy, s.step_state.env_state), st1, (stN.policy, stN.target_policy, env0))
+            differs = greedy(stN.policy) != greedy(stN.target_policy)
+            ctx.guard("paths-online-target-greedy-actions-differ", int(differs))
+            posN = int(np.asarray(stN.step_state.buffer.position)[0])
+            pos1 = int(np.asarray(st1.step_state.buffer.position))
+            stN = itN(stN, jr.key(c["key"] * 100 + n))
+            st1 = it1(st1, jr.key(c["key"] * 100 + 50 + n))
+            bN, b1 = stN.step_state.buffer, st1.step_state.buffer
+            CN, C1 = bN.rewards.shape[-1], b1.rewards.shape[-1]
+            for j in range(Tn):
+                rowN = [np.asarray(x)[0, (posN + j) % CN] for x in (bN.observations, bN.actions, bN.rewards, bN.dones, bN.next_observations)]
+                row1 = [np.asarray(x)[(pos1 + j) % C1] for x in (b1.observations, b1.actions, b1.rewards, b1.dones, b1.next_observations)]
+                if not all(np.array_equal(a, b) for a, b in zip(rowN, row1)):
+                    out.append((ci, "C12/iteration/parallel-path-differs-from-single-environment-path",
+                                f"{desc}: iteration {n + 1}, step {j}: environment 0 of the {N}-environment iteration stored (obs, action, reward, done, next obs) = {[np.asarray(x).tolist() for x in rowN]}, the single-environment iteration from the same networks and start state stored {[np.asarray(x).tolist() for x in row1]}"
+                                + (" [online and target networks currently choose different greedy actions]" if differs else "")))
+                    break
+            else:
+                ctx.transitions += Tn
+                continue
+            break
+        ctx.traces += 1
+    return out
+
+
+CLAUSES = {"envmodes": clause_envmodes, "collect_diff": clause_collect_diff, "streams": clause_streams, "iteration_paths": clause_iteration_paths}
 
 
 def explore(ctx: Ctx):
@@ -349,5 +410,13 @@ def explore(ctx: Ctx):
             for N in (2, 3, 4):
                 streams.append(dict(tab, algo="PPO" if N != 3 else "A2C", script=sc, num_envs=N, num_steps=3, key=keys[N % len(keys)], gamma=0.5, lam=0.25))
     ctx.run("streams", streams)
+    # off-policy: the N-environment iteration vs the single-environment iteration from the same networks / start state
+    paths = []
+    for tab in [t for t in family(3, 2, shaped=True, limits=[(0, 3)], obs_kind="onehot") if sum(t["init"]) == 1][:: (9 if thorough else 40)]:
+        for N in ((2, 3) if thorough else (2,)):
+            for pk in ((0, 1, 2) if thorough else (0, 1)):
+                paths.append(dict(tab, N=N, num_steps=2, n_iter=10, interval=1000, lr=0.05, policy_key=pk, key=keys[0]))
+    ctx.run_parallel("iteration_paths", paths, workers=6, group_key=lambda c: c["N"], threads=2)
+    ctx.notes["iteration_path_cases"] = len(paths)
     ctx.nontrivial |= {("diff", i) for i in range(len(diff))} | {("stream", i) for i in range(len(streams))}
-    ctx.require("collect-envs-start-differently", "after_reset", "trunc_only", "term_only")
+    ctx.require("collect-envs-start-differently", "after_reset", "trunc_only", "term_only", "paths-online-target-greedy-actions-differ")
